@@ -37,7 +37,7 @@ class LeastSquaresStub:
         if outcome == 2:
             raise symx.simulated(ValueError('stub: x0 is infeasible'))
         if outcome == 1:
-            return stubs.OptRes(success=False, message='stub: did not converge', x=x0, fun=None)
+            return stubs.OptRes(success=False, message='stub: did not converge', x=x0, fun=None, cost=None, status=0, nfev=1, njev=1, optimality=None)
         m = len(list(x0))
         x = []
         for i in range(m):
@@ -62,7 +62,15 @@ class LeastSquaresStub:
             k = len(numpy.asarray(args[0], dtype=object).ravel())
             r = isofix.column(h, [h.real(f'{self.name}{n}_r{j}') for j in range(k)])
         call.r = r
-        return stubs.OptRes(success=True, x=xa, fun=r, message='stub')
+        # scipy's contract: cost = 0.5 * sum(rho(f_i^2)); for the default linear loss that is 0.5 * sum(f_i^2), for a robust
+        # loss (soft_l1, huber, cauchy, arctan) it is the robustified objective, a different number
+        ssq = 0
+        for v_ in numpy.asarray(r, dtype=object).ravel():
+            ssq = ssq + v_ * v_
+        loss = kw.get('loss', 'linear')
+        cost = 0.5 * ssq if loss == 'linear' else h.real(f'{self.name}{n}_robust_cost', nonneg=True)
+        return stubs.OptRes(success=True, x=xa, fun=r, cost=cost, message='stub', status=1, nfev=1, njev=1,
+                            optimality=h.real(f'{self.name}{n}_optimality', nonneg=True))
 
 
 def data(h, k, ordered=True):
@@ -71,7 +79,7 @@ def data(h, k, ordered=True):
     return ps, ns
 
 
-def h_fit(h, name, user_bounds):
+def h_fit(h, name, user_bounds, loss=None):
     from scipy import optimize
     from pygaps.utilities.exceptions import CalculationError
     k = 3
@@ -94,12 +102,14 @@ def h_fit(h, name, user_bounds):
     ls = LeastSquaresStub(h, mode='fresh')
     with stubs.patched((optimize, 'least_squares', ls)):
         try:
-            m.fit(isofix.column(h, ps), isofix.column(h, ns), guess)
+            m.fit(isofix.column(h, ps), isofix.column(h, ns), guess, optimization_params={'loss': loss} if loss else None)
             err = None
         except CalculationError as e:
             err = e
     call = ls.calls[0]
-    cid = f'C12/fit/{name}/user_bounds={user_bounds}'
+    cid = f'C12/fit/{name}/user_bounds={user_bounds}' + (f'/loss={loss}' if loss else '')
+    if loss:
+        h.claim(f'{cid}/optimiser-options-passed-on', call.kw.get('loss') == loss)
     h.claim(f'{cid}/failure-or-ValueError=>CalculationError', (err is not None) == (call.x is None))
     names = list(m.params)
     lo = [float(b) for b in call.bounds[0]]
@@ -130,7 +140,8 @@ def h_fit(h, name, user_bounds):
     ssq = 0
     for v in numpy.asarray(call.r, dtype=object).ravel():
         ssq = ssq + v * v
-    h.claim(f'{cid}/rmse^2*n*range^2==sum(r^2)', h.eq(m.rmse * m.rmse * k * rng * rng, ssq) & (m.rmse * rng >= 0))
+    q = m.rmse * rng         # (kept as one factor: the query stays quadratic)
+    h.claim(f'{cid}/rmse^2*n*range^2==sum(r^2)', h.eq(q * q * k, ssq) & (q >= 0))
 
 
 def h_guess_bounds(h):
@@ -267,12 +278,14 @@ def h_from_model(h, name):
 def obligations(tier):
     obs = []
     kw = dict(funcs=FUNCS, stubs=['least_squares contract stub'], timeout_s=60 if tier == 'quick' else 600, validate=1, max_paths=6000)
-    for name in (['Langmuir', 'Henry', 'BET', 'Quadratic'] if tier == 'quick' else
+    for name in (['Langmuir', 'Henry', 'BET', 'Quadratic', 'DSLangmuir'] if tier == 'quick' else
                  ['Langmuir', 'Henry', 'BET', 'Quadratic', 'DSLangmuir', 'TSLangmuir', 'GAB', 'TemkinApprox']):
         if name == 'Virial':
             continue
         for ub in (False, True):
             obs.append(Obligation(f'C12/fit/{name}/{ub}', h_fit, (name, ub), bounds='k=3', **kw))
+        if name == 'Langmuir':
+            obs.append(Obligation(f'C12/fit/{name}/False/soft_l1', h_fit, (name, False, 'soft_l1'), bounds='k=3; robust loss passed on to the optimiser', **kw))
     # (pressure-explicit models go through the same fit(); FH-VST with symbolic parameters exhausts the exploration budget
     #  on division forks and is not included)
     obs.append(Obligation('C12/initial_guess_bounds', h_guess_bounds, (), bounds='reals', **kw))
